@@ -272,7 +272,7 @@ def read_run(ops, outs):
         if f[0] == "adv":
             now += int(f[1])
             continue
-        if o in ("bad-op", "no-scenario", "dead") or f[0] == "park-warn":
+        if o in ("bad-op", "no-scenario", "dead") or f[0] in ("park-warn", "release-fx"):
             continue
         if f[0] == "start" and o == "parked":
             parked = f[1]        # arrived, not decided yet: the decision shows at `unpark` or in front of a completion
@@ -670,7 +670,7 @@ class Builder:
         if k < 0.06:
             opt += " fx=0"
         elif k < 0.3:
-            opt += " fx=" + rng.choice(["fail", "failtrip", "failstandby"])
+            opt += " fx=" + rng.choice(["fail", "failtrip", "failstandby", "slow", "slow"])
         self.lines = ["cfg fb=%d rec=%d cp=%d px=%s go=%s%s%s" % (fb, rec, cp, px_expr(expr), go_expr(expr, rng),
                                                                    " qs=" + ",".join(qs) if qs else "", opt)]
         self.parks = rng.randint(1, 3) if rng.random() < 0.25 else 0
@@ -692,12 +692,15 @@ class Builder:
     def start(self):
         self.n += 1
         i = "r%d" % self.n
-        self.lines.append("start " + i)
+        # now and then the client has already gone (cancelled context): the breaker must treat the request like any other
+        self.lines.append("start " + i + (" cancelled" if self.rng.random() < 0.06 else ""))
         self.fl.append(i)
         return i
 
     def finish(self, i, code):
-        self.lines.append("finish %s %d" % (i, code))
+        # now and then the protected handler sends an informational response (103 Early Hints, …) before the final status
+        info = " info=%d" % self.rng.choice([103, 103, 100, 102]) if self.rng.random() < 0.08 else ""
+        self.lines.append("finish %s %d%s" % (i, code, info))
         if i in self.fl:
             self.fl.remove(i)
 
@@ -723,7 +726,7 @@ class Builder:
             else:
                 self.start()
             if r.random() < 0.04:
-                self.lines.append(r.choice(["state", "effects"]))
+                self.lines.append(r.choice(["state", "effects", "release-fx"]))
 
     def burst(self, mood="bad"):
         """a check is due, then several completions at one instant T: a trip, if any, happens at T"""
@@ -1193,6 +1196,10 @@ def gen(rng, tier, focus):
 # ------------------------------------------------------------------------------------------ accounting
 def describe(ops, outs, hist):
     for l, o in zip(ops, outs):
+        if l.startswith("finish") and " info=" in l:
+            hist["finish:informational-first"] += 1
+        if l.startswith("start ") and l.endswith(" cancelled"):
+            hist["start:cancelled-context"] += 1
         if o == "parked":
             hist["park:parked"] += 1
         elif o.startswith("unparked ") and l.startswith("finish2"):
